@@ -113,6 +113,36 @@ func propC02(w *World, r *Report) {
 	RunCovMono(w, r, br)
 	r.Conds["cmap-formats-agree"] = condFormatsAgree(w)
 	r.Conds["scaler-types-agree"] = condScalerTypes(w)
+	r.Conds["widths-nonnil-guarded"] = func() (bool, string) {
+		fn := w.Func("(*sfnt.Font).Widths")
+		if fn == nil {
+			return false, "(*sfnt.Font).Widths not found"
+		}
+		p := br.prover(fn)
+		n := 0
+		for _, b := range fn.Blocks {
+			for _, in := range b.Instrs {
+				ia, ok := in.(*ssa.IndexAddr)
+				if !ok || !strings.Contains(p.srcOf(p.canonVal(ia.X)), ".Widths") {
+					continue
+				}
+				n++
+				guarded := false
+				for _, f := range p.factsAt(b) {
+					for a, c := range f.e.t {
+						if a.k == aNonNil && c == 1 && f.e.k == -1 && a.v == p.canonVal(ia.X) {
+							guarded = true
+						}
+					}
+				}
+				if !guarded {
+					return false, "outlines.Widths is indexed at " + w.Pos(ia.Pos()) + " without a dominating nil check"
+				}
+			}
+		}
+		return n > 0, "no index into outlines.Widths found"
+	}
+	r.Conds["format12-budget"] = condExpansionBudget(w, "cmap.decodeFormat12")
 	r.Conds["glyphheight-guarded"] = func() (bool, string) {
 		fn := w.Func("(*sfnt.Font).glyphHeight")
 		if fn == nil || w.CG.Nodes[fn] == nil {
